@@ -119,10 +119,27 @@ def grid_case(draw, formats, tier, tolerances=None):
     n = draw(st.integers(1, 4))
     palette = {}
     sources = []
+    first = None
+    # the point of the viewBox that lands on the font origin (left end of the baseline): a copy scaled uniformly about it is
+    # placed by a scale with no translation at all (PaintScaleUniform), about any other point by PaintScaleUniformAroundCenter
+    origin = (-max(0.0, (cfg["width"] - vbs * k) / 2.0) / k, vbs + desc / k)
     for i in range(n):
         nodes = []
         for _ in range(draw(st.integers(1, 4))):
-            kind = draw(st.sampled_from(["same", "shift", "stretch_x", "stretch_y", "mirror_x", "mirror_y", "stretch_both"]))
+            kind = draw(st.sampled_from(["same", "shift", "stretch_x", "stretch_y", "mirror_x", "mirror_y", "stretch_both", "scale_origin", "scale_origin"]))
+            if first is None:
+                kind = "same"
+            if kind == "scale_origin":
+                f_ = draw(st.sampled_from([0.5, 0.75, 1.25, 1.5]))
+                ox, oy = origin if draw(st.sampled_from([True, True, False])) else (float(draw(st.integers(0, 10)) * u), float(draw(st.integers(0, 20)) * u))
+                cmds = [[c[0]] + ([ox + f_ * (c[1] - ox), oy + f_ * (c[2] - oy)] if len(c) == 3 else []) for c in first]
+                from ..gen_svg import cmds_bbox as _bb
+
+                bb_ = _bb(cmds)
+                if bb_[0] >= 0 and bb_[1] >= 0 and bb_[2] <= vbs and bb_[3] <= vbs:
+                    nodes.append({"t": "p", "d": cmds, "fill": draw(paint_grid(bb_)), "op": 1.0, "tag": "lib0:grid_" + kind})
+                    continue
+                kind = "shift"
             w, h = bw, bh
             if kind in ("stretch_x", "stretch_both"):
                 w = draw(st.sampled_from([bw // 2 or 1, bw * 2, bw * 3 // 2 or 1]))
@@ -130,6 +147,8 @@ def grid_case(draw, formats, tier, tolerances=None):
                 h = draw(st.sampled_from([bh // 2 or 1, bh * 2, bh * 3 // 2 or 1]))
             x, y = draw(st.integers(0, 14)) * u, draw(st.integers(0, 14)) * u
             cmds = base(x, y, w, h, kind == "mirror_x", kind == "mirror_y")
+            if first is None:
+                first = cmds
             from ..gen_svg import cmds_bbox as _bb
 
             nodes.append({"t": "p", "d": cmds, "fill": draw(paint_grid(_bb(cmds))), "op": 1.0, "tag": "lib0:grid_" + kind})
